@@ -419,3 +419,129 @@ Proof.
   unfold scan_unsigned_decimal. rewrite <- (take_drop is_digit u) at 3 4.
   apply core; [apply take_while_all | apply drop_while_head].
 Qed.
+
+(** ** Infinity, sign, and the whole StrDecimalLiteral *)
+Lemma starts_with_app p u : starts_with p u = true -> exists rest, u = p ++ rest.
+Proof.
+  revert u. induction p as [|x p IH]; intros u H; [exists u; reflexivity|].
+  destruct u as [|y u]; [discriminate|]. cbn in H. apply andb_true_iff in H as [Hxy Hr].
+  apply N.eqb_eq in Hxy. subst y. destruct (IH u Hr) as [rest ->]. exists rest. reflexivity.
+Qed.
+
+Lemma starts_with_refl_app p rest : starts_with p (p ++ rest) = true.
+Proof. induction p as [|x p IH]; [reflexivity|]. cbn. rewrite N.eqb_refl. exact IH. Qed.
+
+Lemma str_eqb_app_self p rest : str_eqb (p ++ rest) p = match rest with [] => true | _ => false end.
+Proof.
+  induction p as [|x p IH]; [destruct rest; reflexivity|]. cbn. rewrite N.eqb_refl. exact IH.
+Qed.
+
+Lemma str_eqb_starts u p : str_eqb u p = true -> starts_with p u = true.
+Proof. intros H. apply str_eqb_eq in H. subst. rewrite <- (app_nil_r p) at 2. apply starts_with_refl_app. Qed.
+
+Lemma udv_starts_with_I rest : unsigned_decimal_value (s_Infinity ++ rest) = None.
+Proof.
+  change (s_Infinity ++ rest) with (73 :: (skipn 1 s_Infinity ++ rest)).
+  rewrite unsigned_decimal_value_udv, (split_e_nonE 73 _ eq_refl). cbn [fst snd].
+  apply (udv_bad_int [] 73); reflexivity.
+Qed.
+
+(** Lemma U: after the sign *)
+Definition after_sign_m (u : str) : option (f64 * nat) :=
+  if starts_with s_Infinity u then Some (S754_infinity false, 8%nat)
+  else match scan_unsigned_decimal u with
+       | None => None
+       | Some l => Some (dec_lit_value l, dl_len l)
+       end.
+
+Definition after_sign_s (u : str) : option f64 :=
+  if str_eqb u s_Infinity then Some (S754_infinity false) else unsigned_decimal_value u.
+
+Lemma after_sign_eq u :
+  match after_sign_m u with
+  | Some (v, len) => if Nat.eqb len (length u) then Some v else None
+  | None => None
+  end = after_sign_s u.
+Proof.
+  unfold after_sign_m, after_sign_s.
+  destruct (starts_with s_Infinity u) eqn:SW.
+  - destruct (starts_with_app _ _ SW) as [rest ->]. rewrite str_eqb_app_self, app_length.
+    destruct rest as [|c r].
+    + reflexivity.
+    + replace (Nat.eqb 8 (length s_Infinity + length (c :: r))) with false by (symmetry; apply Nat.eqb_neq; cbn; lia).
+      symmetry. apply udv_starts_with_I.
+  - destruct (str_eqb u s_Infinity) eqn:SE; [apply str_eqb_starts in SE; congruence|].
+    rewrite <- scan_whole. unfold whole. destruct (scan_unsigned_decimal u); reflexivity.
+Qed.
+
+(** Lemma D: the whole decimal literal with its sign *)
+Theorem decimal_prefix_whole s :
+  match parse_decimal_prefix s with
+  | Some (v, len) => if Nat.eqb len (length s) then Some v else None
+  | None => None
+  end = decimal_value s.
+Proof.
+  assert (K : forall (neg : bool) (sl : nat) (u : str),
+             match (match after_sign_m u with
+                    | None => None
+                    | Some (mag, len) => Some (if neg then SFopp mag else mag, (sl + len)%nat)
+                    end) with
+             | Some (v, len) => if Nat.eqb len (sl + length u) then Some v else None
+             | None => None
+             end =
+             match after_sign_s u with
+             | Some m => Some (if neg then SFopp m else m)
+             | None => None
+             end).
+  { intros neg sl u. rewrite <- after_sign_eq. destruct (after_sign_m u) as [[mag len]|]; [|reflexivity].
+    replace (Nat.eqb (sl + len) (sl + length u)) with (Nat.eqb len (length u)).
+    - destruct (Nat.eqb len (length u)); reflexivity.
+    - destruct (Nat.eqb_spec len (length u)), (Nat.eqb_spec (sl + len) (sl + length u)); try reflexivity; lia. }
+  unfold parse_decimal_prefix, decimal_value. fold (after_sign_m). 
+  destruct s as [|c u].
+  - exact (K false 0%nat []).
+  - destruct c as [|p].
+    + exact (K false 0%nat (0 :: u)).
+    + do 6 (try destruct p as [p|p|]);
+        first [ exact (K true 1%nat u) | exact (K false 1%nat u)
+              | match goal with |- context [length (?x :: u)] => exact (K false 0%nat (x :: u)) end ].
+Qed.
+
+(** ** radix literals *)
+Lemma radix_value_bad rdx ds : forall acc,
+  forallb (fun d => match to_digit rdx d with Some _ => true | None => false end) ds = false ->
+  radix_value rdx ds acc = None.
+Proof.
+  induction ds as [|c r IH]; intros acc H; [discriminate|]. cbn in *.
+  destruct (to_digit rdx c); [apply IH; exact H | reflexivity].
+Qed.
+
+Lemma radix_digits_spec ds rdx :
+  radix_digits_to_number ds rdx =
+  if nonempty ds && forallb (fun d => match to_digit rdx d with Some _ => true | None => false end) ds
+  then match radix_value rdx ds 0%Z with Some z => Some (f64_of_Z z) | None => None end
+  else None.
+Proof.
+  unfold radix_digits_to_number. destruct ds as [|c r]; [reflexivity|]. cbn [nonempty andb].
+  destruct (forallb _ (c :: r)) eqn:F; [reflexivity|]. rewrite radix_value_bad by exact F. reflexivity.
+Qed.
+
+(** ** C07/C09/C10: str_to_number is the specification's StringToNumber *)
+Theorem str_to_number_spec s0 : str_to_number s0 = es_str_to_number s0.
+Proof.
+  unfold str_to_number, es_str_to_number. set (s := trim_both is_js_ws s0). clearbody s.
+  destruct s as [|c1 r1]; [reflexivity|].
+  assert (Dec : (match parse_decimal_prefix (c1 :: r1) with
+                 | Some (v, len) => if Nat.eqb len (length (c1 :: r1)) then Some v else None
+                 | None => None
+                 end) = decimal_value (c1 :: r1)) by apply decimal_prefix_whole.
+  destruct c1 as [|p]; [exact Dec|].
+  do 6 (try destruct p as [p|p|]); try exact Dec.
+  (* the first character is '0' *)
+  destruct r1 as [|c ds]; [exact Dec|].
+  cbn [radix_literal_value skipn].
+  destruct ((c =? 120) || (c =? 88)); [apply radix_digits_spec|].
+  destruct ((c =? 111) || (c =? 79)); [apply radix_digits_spec|].
+  destruct ((c =? 98) || (c =? 66)); [apply radix_digits_spec|].
+  exact Dec.
+Qed.
